@@ -121,7 +121,11 @@ Definition out_field_nums (o : outcome (list dfile)) (m f : str) : list N :=
    embed (files_ext_b), and the real files.  ents / ents': main proto paths of the files with entities. *)
 Inductive c13ecase :=
 | CEntEdit (bd : ebundle) (es : list eedit) (pkg : str) (ents : list str)
-           (ok ok' okall okall' embeds : bool) (files files' : list dfile).
+           (ok ok' okall okall' embeds : bool) (files files' : list dfile)
+(* an append outside the edit language of C13_full (a message appended to a publish topic): the
+   two versions as printed; the model must reproduce both, validity = acceptance on both sides,
+   and the embedding is evaluated on the REAL descriptors *)
+| CAppendPair (bd bd' : bundle) (pkg : str) (ok ok' okall okall' embeds : bool) (files files' : list dfile).
 
 Definition c13e_check (c : c13ecase) : bool :=
   match c with
@@ -133,4 +137,8 @@ Definition c13e_check (c : c13ecase) : bool :=
       (* the theorem's class embeds; a history with a URL key is expected not to *)
       (if ok && ok' then Bool.eqb (files_ext_b files files') embeds else true) &&
       (if forallb eedit_ok es then embeds || negb (ok && ok') else true)
+  | CAppendPair bd bd' pkg ok ok' okall okall' embeds files files' =>
+      compile_check bd pkg ok files && compile_check bd' pkg ok' files' &&
+      Bool.eqb (valid bd) okall && Bool.eqb (valid bd') okall' &&
+      (if ok && ok' then Bool.eqb (files_ext_b files files') embeds else true)
   end.
